@@ -384,11 +384,13 @@ def mult_frequency_monitor(ck, np, StateManager, Resampler, quick):
     worst = 0.0
     cases = 0
     rng = np.random.RandomState(60606)
-    for N, n in ((3, 4), (5, 8), (8, 3)):
+    for N, n in ((3, 4), (5, 8), (8, 3), (4, 8), (6, 5)):
         w = rng.dirichlet(np.ones(N))
         if N == 5:
             w[1] = 0.0
             w /= w.sum()
+        if N in (4, 6):
+            w = np.ones(N) / N     # exactly uniform weights (a flat likelihood): the branch an equal-weights shortcut would take
         sm, NN = build_state(np, StateManager, [N], False)
         counts = np.zeros(N)
         for r in range(reps):
